@@ -3,7 +3,7 @@
 //! `AddressSpace` built from the case: nodes (numeric ids `ns * 2^32 + value`, browse names
 //! `(namespace, code)`: code 0 = null string, 1 = "", k >= 2 = "n<k>") and reference triples.
 //! Output: `status, #targets, sorted distinct target ids, #targets returned (with repetitions)`.
-//! One case in ten is a neighbourhood of the standard node set (`gen_std`), run against the server's
+//! One case in thirty is a neighbourhood of the standard node set (`gen_std`), run against the server's
 //! real address space.
 #[path = "../util.rs"]
 mod util;
@@ -186,7 +186,7 @@ fn gen_std(r: &mut Rng) -> Option<Case> {
         let mut next = Vec::new();
         let mut add: Vec<(i128, i128, i128)> = Vec::new();
         for n in &frontier { for (t, d) in all(*n) { if t < 0 || d < 0 { return None; } add.push((*n, t, d)); if seen.insert(d) { next.push(d); } } }
-        if refs.len() + add.len() > 220 { break; }
+        if refs.len() + add.len() > 120 { break; }
         refs.extend(add);
         frontier = next;
         hops += 1;
@@ -238,7 +238,7 @@ fn gen_std(r: &mut Rng) -> Option<Case> {
 }
 
 fn gen_case(r: &mut Rng) -> Case {
-    if r.chance(1, 10) { if let Some(c) = gen_std(r) { return c; } }
+    if r.chance(1, 30) { if let Some(c) = gen_std(r) { return c; } }
     let n = 3 + r.below(6) as i128;
     let ids: Vec<i128> = (1..=n).map(n1).collect();
     let mut nodes: Vec<Node> = Vec::new();
